@@ -5,6 +5,7 @@ package secretstore
 import (
 	"bytes"
 	"fmt"
+	"strings"
 	"testing"
 
 	"pgregory.net/rapid"
@@ -41,6 +42,12 @@ func TestVerif_C05_TransientWriteFailure(t *testing.T) {
 			envs, pays = append(envs, vSeal(S, g, p)), append(pays, p)
 		}
 		failAt := rapid.IntRange(1, 4).Draw(rt, "failAt")
+		reads := rapid.IntRange(0, 2).Draw(rt, "reads") == 0
+		// with read failures the announcement may also be a re-delivery: registered before, one message already opened
+		redelivery := reads && rapid.Bool().Draw(rt, "redelivery")
+		if reads {
+			failAt = rapid.IntRange(1, 6).Draw(rt, "failAtRead")
+		}
 		seen, fired := 0, false
 		hit := func() bool {
 			seen++
@@ -50,16 +57,40 @@ func TestVerif_C05_TransientWriteFailure(t *testing.T) {
 			}
 			return false
 		}
-		ds.FailPut = func(string) bool { return hit() }
-		ds.FailCommit = func([]string) bool { return hit() }
 		sdev := S.md(g).Device()
+		if redelivery {
+			if err := R.s.RegisterChainKey(vctx, g, sdev, enc); err != nil {
+				rt.Fatalf("harness: %v", err)
+			}
+			if o, err := vOpen(R, g, envs[0], vCID(envs[0])); err != nil || !bytes.Equal(o.Payload, pays[0]) {
+				rt.Fatalf("harness: first message after a clean registration: %v", err)
+			}
+		}
+		if reads {
+			ds.FailGet = func(key string) bool {
+				for _, ns := range []string{dsNamespaceChainKeyForDeviceOnGroup, dsNamespacePrecomputedMessageKeys, dsNamespaceMessageKeyForCIDs, dsNamespaceGroupDatastore} {
+					if strings.Contains(key, ns) {
+						return hit()
+					}
+				}
+				return false
+			}
+		} else {
+			ds.FailPut = func(string) bool { return hit() }
+			ds.FailCommit = func([]string) bool { return hit() }
+		}
 		err1 := R.s.RegisterChainKey(vctx, g, sdev, enc)
-		ds.FailPut, ds.FailCommit = nil, nil
-		desc := map[string]any{"window": window, "non_batching": ds.NoBatch, "messages_before_announcement": pre, "failing_mutation": failAt, "fault_fired": fired, "first_registration_failed": err1 != nil}
+		ds.FailPut, ds.FailCommit, ds.FailGet = nil, nil, nil
+		desc := map[string]any{"window": window, "non_batching": ds.NoBatch, "messages_before_announcement": pre, "failing_access": failAt, "failing_access_is_a_read": reads, "announcement_is_a_redelivery": redelivery,
+			"fault_fired": fired, "first_registration_failed": err1 != nil}
+		pfx := "write-fault/"
+		if reads {
+			pfx = "read-fault/"
+		}
 		fail := func(id, f string, a ...any) {
 			msg := fmt.Sprintf(f, a...)
-			acct.Violation("write-fault/"+id, "TestVerif_C05_TransientWriteFailure", map[string]any{"case": desc, "msg": msg})
-			rt.Fatalf("C05 write-fault/%s: %s (%v)", id, msg, desc)
+			acct.Violation(pfx+id, "TestVerif_C05_TransientWriteFailure", map[string]any{"case": desc, "msg": msg})
+			rt.Fatalf("C05 %s%s: %s (%v)", pfx, id, msg, desc)
 		}
 		if err1 != nil && !fired {
 			fail("recipient-cannot-open", "registration failed without an injected failure: %v", err1)
@@ -71,12 +102,13 @@ func TestVerif_C05_TransientWriteFailure(t *testing.T) {
 		for i, env := range envs {
 			o, err := vOpen(R, g, env, vCID(env))
 			if err != nil {
-				fail("announced-key-not-usable", "one write failed once while the announcement was registered (first call returned error: %v); now the sender counts as registered but its message %d sealed after the announcement cannot be opened: %v", err1 != nil, i+1, err)
+				fail("announced-key-not-usable", "one storage access failed once while the announcement was registered (first call returned error: %v); now the sender counts as registered but its message %d sealed after the announcement cannot be opened: %v", err1 != nil, i+1, err)
 			}
 			if !bytes.Equal(o.Payload, pays[i]) {
 				fail("wrong-payload", "message %d opens to other content", i+1)
 			}
 		}
-		acct.Case(fired, fmt.Sprintf("c05wf|%d|%v|%d|%d", window, ds.NoBatch, pre, failAt), func() any { return desc }, "write-fault", lbl(fired, "write-fault/fired"), lbl(fired && err1 == nil, "write-fault/first-call-reported-success"))
+		acct.Case(fired, fmt.Sprintf("c05wf|%d|%v|%d|%d|%v|%v", window, ds.NoBatch, pre, failAt, reads, redelivery), func() any { return desc }, "write-fault", lbl(fired && !reads, "write-fault/fired"),
+			lbl(fired && reads, "read-fault/fired"), lbl(fired && redelivery, "read-fault/fired-during-redelivery"), lbl(fired && err1 == nil, "write-fault/first-call-reported-success"))
 	})
 }
